@@ -1,6 +1,10 @@
-/- line-protocol driver for C16: `drv_c16 <sub-command>` reads operations on stdin, prints one canonical line per operation.
+/- line-protocol driver for C16: `drv_c16 seq|opfn|fold|run` (see Driver/AtomicsCmd.lean).
    Core Lean only (nothing imported here may import Mathlib, or the executable will not link). -/
+import ChibiVerif.Driver.AtomicsCmd
 
 def main (args : List String) : IO UInt32 := do
-  IO.eprintln s!"drv_c16: no sub-commands yet (args {args})"
-  return 2
+  match args with
+  | sub :: _ => ChibiVerif.Driver.atomicsMain sub
+  | _ =>
+    IO.eprintln "usage: drv_c16 seq|opfn|fold|run"
+    return 2
